@@ -183,6 +183,22 @@ func checkC16(r *run, c *AudioCase) (CaseInfo, error) {
 		if !(&codecs.OpusPartitionHeadChecker{}).IsPartitionHead(arg) {
 			return ci, failf("OpusPartitionHeadChecker reports false")
 		}
+		// the same OpusPacket decodes further payloads (shorter, equal, longer ones): each comes back unchanged
+		for k, l := range c.More {
+			in2 := expand(c.Seed+uint64(k)+1, c.Pattern, l)
+			out2, err := p.Unmarshal(clone(in2))
+			if l == 0 {
+				if err == nil {
+					return ci, failf("OpusPacket reused: call %d accepted an empty payload", k+2)
+				}
+
+				continue
+			}
+			if err != nil || !bytes.Equal(out2, in2) || !bytes.Equal(p.Payload, in2) {
+				return ci, failf("OpusPacket reused: call %d with a %d-byte payload (after one of %d bytes) returned %d bytes / field %d bytes that differ from it (err %v)", k+2, l, c.Len, len(out2), len(p.Payload), err)
+			}
+			ci.class("receiver-reused")
+		}
 		ci.Nontrivial = true
 	}
 
@@ -232,7 +248,7 @@ func genAudioCase(t *rapid.T) *AudioCase {
 	return c
 }
 
-const ruleC16 = "exhaustive rectangle: every (length 0-64, MTU 1-70, fill pattern in {random,0x00,0xFF,ramp}) for G711 and G722, Opus and OpusPacket for every length 0-64; random: length 0-10000 biased to k*MTU+{-1,0,1}, MTU 1-65535 biased to 1,2,3,160,1200. Oracle: concatenation = input, every fragment but the last exactly MTU bytes, last 1..MTU, fragment count = ceil(len/MTU) (one empty fragment for empty input); Opus: one equal non-aliasing fragment (scribble both ways); OpusPacket: payload unchanged, nil/empty rejected, head/tail always true. Non-trivial = >=2 fragments, empty input or len=MTU (G711/G722), non-empty Opus input, every OpusPacket case; distinct = FNV-64 of the JSON case"
+const ruleC16 = "exhaustive rectangle: every (length 0-64, MTU 1-70, fill pattern in {random,0x00,0xFF,ramp}) for G711 and G722, Opus and OpusPacket for every length 0-64; random: length 0-10000 biased to k*MTU+{-1,0,1}, MTU 1-65535 biased to 1,2,3,160,1200. Oracle: concatenation = input, every fragment but the last exactly MTU bytes, last 1..MTU, fragment count = ceil(len/MTU) (one empty fragment for empty input); Opus: one equal non-aliasing fragment (scribble both ways); OpusPacket: payload unchanged (also for further payloads decoded by the same value), nil/empty rejected, head/tail always true. Non-trivial = >=2 fragments, empty input or len=MTU (G711/G722), non-empty Opus input, every OpusPacket case; distinct = FNV-64 of the JSON case"
 
 func TestC16(t *testing.T) {
 	r := begin(t, "C16", "exploration", ruleC16)
